@@ -279,6 +279,36 @@ def _mk_funcs():
   return [f0, f1, f2, f3]
 
 
+class EqStrat(object):
+  """A strategy that is *equal* to every other EqStrat of the same index but a different object
+  (like a bound method fetched twice): the dictionaries group values by equality."""
+  def __init__(self, i):
+    self.i = i
+    self._vid = "f%d" % i
+    self.__name__ = "f%d" % i
+  def __eq__(self, other):
+    return isinstance(other, EqStrat) and other.i == self.i
+  def __ne__(self, other):
+    return not self == other
+  def __hash__(self):
+    return hash(("EqStrat", self.i))
+  def __call__(self, *a, **k):
+    return ("f%d" % self.i, a, tuple(sorted(k.items())))
+
+
+class FreshFuncs(object):
+  """funcs[i] is a new equal object on every access."""
+  fresh = True
+  def __getitem__(self, i):
+    return EqStrat(i)
+
+
+def same(funcs, got, exp):
+  if getattr(funcs, "fresh", False):
+    return (got is exp) if not isinstance(exp, EqStrat) else (isinstance(got, EqStrat) and got == exp)
+  return got is exp
+
+
 class SDModel(Model):
   def __init__(self):
     Model.__init__(self)
@@ -353,9 +383,9 @@ def sd_apply_real(sd, funcs, op):
     return type(exc).__name__
 
 
-def build_sd(hist):
+def build_sd(hist, fresh=False):
   sd = StrategyDict("sd_under_test")
-  funcs = _mk_funcs()
+  funcs = FreshFuncs() if fresh else _mk_funcs()
   m = SDModel()
   for op in hist:
     sd_apply_real(sd, funcs, op)
@@ -394,11 +424,11 @@ def observe_sd(sd, funcs, m, nnames, nfuncs):
     except KeyError:
       got = KeyError
     exp = funcs[g[0]] if g else KeyError
-    if got is not exp:
+    if not same(funcs, got, exp):
       return ("sd[%r]" % k, _n(exp), _n(got))
     got = vars(sd).get(k, AttributeError)
     exp = funcs[g[0]] if g else AttributeError
-    if got is not exp:
+    if not same(funcs, got, exp):
       return ("getattr(sd,%r)" % k, _n(exp), _n(got))
     if g:
       if sd.key2keys(k) != tuple(g[1]):
@@ -422,7 +452,7 @@ def observe_sd(sd, funcs, m, nnames, nfuncs):
   # default and calling
   inst = vars(sd).get("default", None)
   exp = None if m.default is None else funcs[m.default]
-  if inst is not exp:
+  if not same(funcs, inst, exp):
     return ("default", _n(exp), _n(inst))
   res = sd(7, x=1)
   if m.default is None:
@@ -461,11 +491,15 @@ def _fid(f):
     return repr(f)
 
 
-def run_sd(case):
+def run_sd_eq(case):
+  return run_sd(case, fresh=True)
+
+
+def run_sd(case, fresh=False):
   (nnames, nfuncs, maxtuple), hist = case
   cfg = [nnames, nfuncs, maxtuple]
   hist = [list(o) for o in hist]
-  sd, funcs, m0 = build_sd(hist)
+  sd, funcs, m0 = build_sd(hist, fresh)
   succ = {("self:",) + m0.canon(): [cfg, hist]}
   n = changed = 0
   outcomes = set()
@@ -476,7 +510,7 @@ def run_sd(case):
                "observer disagrees with the model in the state reached by the history",
                {"observer": o[0], "value": o[1]}, {"value": o[2], "history": hist})
   for op in sd_ops(nnames, nfuncs, maxtuple):
-    sd, funcs, m = build_sd(hist)
+    sd, funcs, m = build_sd(hist, fresh)
     before = m.canon()
     exp_exc = sd_apply_model(m, op)
     if exp_exc == "skip":
@@ -500,10 +534,11 @@ def run_sd(case):
                         {"value": o[2], "history": hist})
       continue
     if op[0] == "strategy" and not op[3]:
-      if funcs[op[2]].__name__ != str(op[1][0]):
+      renamed = sd[op[1][0]] if fresh else funcs[op[2]]
+      if renamed.__name__ != str(op[1][0]):
         if first_bad is None:
           first_bad = bad("sd:strategy:name", "strategy() must rename the function to the first name",
-                          op[1][0], funcs[op[2]].__name__)
+                          op[1][0], renamed.__name__)
         continue
     c = m.canon()
     if c != before:
@@ -521,6 +556,9 @@ KINDS = OrderedDict([
                rule="one case = one reachable state (its shortest history); all operations applied from it")),
   ("sd", Kind(None, run_sd, chunk=4,
               rule="one case = one reachable StrategyDict state; all operations applied from it")),
+  ("sd-eq", Kind(None, run_sd_eq, chunk=4,
+                 rule="the same search with strategies that are equal but never identical objects "
+                      "(every assignment stores a fresh equal callable, like a bound method fetched twice)")),
 ])
 
 
@@ -582,7 +620,18 @@ def main(run):
   cov["StrategyDict-tuples3"] = {"universe": {"names": 3, "strategies": 2, "max_tuple": 3}, "states": st3s["states"],
                                  "bfs_depth_to_closure": st3s["depth"], "closed": st3s["closed"]}
   total_states += st3s["states"]
-  total_trans = run.per_kind["mkd"]["extra"]["transitions"] + run.per_kind["sd"]["extra"]["transitions"]
+  ste = histories.bfs(run, "sd-eq", [(cfg, [])])
+  ke = run.per_kind["sd-eq"]
+  print("  sd-eq (equal, never identical strategies): %d states, %d transitions, depth %d, closed=%s"
+        % (ste["states"], ke["extra"]["transitions"], ste["depth"], ste["closed"]))
+  cov["StrategyDict-equal-not-identical"] = {"universe": {"names": cfg[0], "strategies": cfg[1], "max_tuple": cfg[2]},
+                                             "states": ste["states"], "transitions": ke["extra"]["transitions"],
+                                             "bfs_depth_to_closure": ste["depth"], "closed": ste["closed"]}
+  total_states += ste["states"]
+  if not ste["closed"]:
+    run.caps.append("StrategyDict (equal strategies) search not closed")
+  total_trans = (run.per_kind["mkd"]["extra"]["transitions"] + run.per_kind["sd"]["extra"]["transitions"]
+                 + ke["extra"]["transitions"])
   if not st["closed"]:
     run.caps.append("StrategyDict search not closed")
   run.coverage.update({
